@@ -34,7 +34,13 @@ class Result:
     def ok(self, rule, instance, where, detail='', **kw):
         return self.ob(rule, instance, where, OK, detail, **kw)
 
-    def viol(self, rule, instance, where, detail='', **kw):
+    def viol(self, rule, instance, where, detail='', sure=False, **kw):
+        # A16, applied uniformly: a report whose own text shows that part of the construct was not read (an expression the
+        # renderer could not resolve, a value the evaluator could not compute, a lambda or a file-local helper standing where
+        # a tabulated value is expected) is not positive evidence.  Rules that have read everything they report pass sure=True.
+        import re as _re
+        if not sure and _re.search(r'\?[A-Z]\w+(?:Expr|Stmt|Operator)\b|\bNone\b|\(anonymous namespace\)::\w+\(|local:__\w+', detail or ''):
+            return self.ob(rule, instance, where, UNDEC, (detail or '') + ' [the report contains a part the rule could not read]', **kw)
         return self.ob(rule, instance, where, VIOL, detail, **kw)
 
     def undecided(self, rule, instance, where, detail='', **kw):
